@@ -31,6 +31,11 @@ TNext ==
         \/ Ev.e = "WriteCall" /\ WriteCall(Ev.k, Ev.n)
         \/ Ev.e = "WriteRet" /\ WriteRet /\ cret' = Ev.r
         \/ Ev.e = "Exit"     /\ Exit(Ev.fail)
+        \/ Ev.e = "CloseInCall" /\ CloseInCall
+        \/ Ev.e = "CloseInRet"  /\ CloseInRet
+        \/ Ev.e = "WaitAbortCall" /\ WaitAbortCall
+        \* the client waited (3 s) for its context to be cancelled: only "aborted" can be explained
+        \/ Ev.e = "WaitAbortRet"  /\ Ev.r = "aborted" /\ WaitAbortRet
         \/ Ev.e = "Cb"       /\ CbStep /\ cblog'[Len(cblog')] = <<Ev.n, Ev.k>>
         \/ Ev.e = "CloseCall" /\ CloseCall
         \/ Ev.e = "CloseRet" /\ CloseRet
